@@ -1,7 +1,153 @@
 import Hs.Model.Vx
+import Hs.Model.Filter
+import Hs.Model.FilterSpec
 namespace Hs.Drv.C07
+open Hs Hs.Vx
 
-/-- requests `C07 <cmd> ...` (tokens after the property id) -/
-def handle (_ts : List String) : String := "bad-request"
+/-! Exchange syntax of filters (prefix tokens):
+  OR   ::= or k AND*k          AND ::= and k TERM*k          P ::= k H*k
+  TERM ::= par OR | has P | miss P | isa H(sym) | weq P H(refid) | rel H(rel) HO(term) HO(refid)
+         | cmp OP P V          OP ::= eq | ne | lt | le | gt | ge          V = a VX value
+-/
+
+def pPath : P FPath := fun ts => do
+  let (k, ts) ← pNat ts
+  pRep pH k ts
+
+def pOp : P CmpOp := fun ts => do
+  let (t, ts) ← tok ts
+  match t with
+  | "eq" => pure (.eq, ts) | "ne" => pure (.ne, ts) | "lt" => pure (.lt, ts)
+  | "le" => pure (.le, ts) | "gt" => pure (.gt, ts) | "ge" => pure (.ge, ts)
+  | _ => none
+
+mutual
+partial def pOr : P FOr := fun ts => do
+  let (t, ts) ← tok ts
+  if t ≠ "or" then none else
+  let (k, ts) ← pNat ts
+  let (as, ts) ← pRep pAnd k ts
+  pure (FOr.ofList as, ts)
+partial def pAnd : P FAnd := fun ts => do
+  let (t, ts) ← tok ts
+  if t ≠ "and" then none else
+  let (k, ts) ← pNat ts
+  let (xs, ts) ← pRep pTerm k ts
+  pure (FAnd.ofList xs, ts)
+partial def pTerm : P FTerm := fun ts => do
+  let (t, ts) ← tok ts
+  match t with
+  | "par" => do let (o, ts) ← pOr ts; pure (.parens o, ts)
+  | "has" => do let (p, ts) ← pPath ts; pure (.has p, ts)
+  | "miss" => do let (p, ts) ← pPath ts; pure (.missing p, ts)
+  | "isa" => do let (s, ts) ← pH ts; pure (.isA s, ts)
+  | "weq" => do
+    let (p, ts) ← pPath ts
+    let (r, ts) ← pH ts
+    pure (.wildcardEq p r, ts)
+  | "rel" => do
+    let (r, ts) ← pH ts
+    let (t, ts) ← pHO ts
+    let (f, ts) ← pHO ts
+    pure (.relation r t f, ts)
+  | "cmp" => do
+    let (op, ts) ← pOp ts
+    let (p, ts) ← pPath ts
+    let (v, ts) ← pVal ts
+    pure (.cmp p op v, ts)
+  | _ => none
+end
+
+/-- resolver records: `same` (the evaluated records) or `k REC*k` -/
+def pRes (recs : List Tags) : P (List Tags) := fun ts => do
+  let (t, ts) ← tok ts
+  if t = "same" then pure (recs, ts) else
+  let k ← t.toNat?
+  pRep pTags k ts
+
+def bitAt (s : String) (i : Nat) : Bool := s.toList.getD i '0' == '1'
+
+structure Req where
+  mode : String
+  f : FOr
+  recs : List Tags
+  res : List Tags
+  fitsT : List (List Char × String)
+  relT : List ((List Char × Option (List Char) × Option (List Char)) × String)
+
+def pReq : P Req := fun ts => do
+  let (mode, ts) ← tok ts
+  let (f, ts) ← pOr ts
+  let (n, ts) ← pNat ts
+  let (recs, ts) ← pRep pTags n ts
+  let (res, ts) ← pRes recs ts
+  let (nf, ts) ← pNat ts
+  let (fitsT, ts) ← pRep (fun ts => do
+    let (s, ts) ← pH ts
+    let (b, ts) ← tok ts
+    pure ((s, b), ts)) nf ts
+  let (nr, ts) ← pNat ts
+  let (relT, ts) ← pRep (fun ts => do
+    let (r, ts) ← pH ts
+    let (t, ts) ← pHO ts
+    let (f, ts) ← pHO ts
+    let (b, ts) ← tok ts
+    pure (((r, t, f), b), ts)) nr ts
+  pure ({ mode, f, recs, res, fitsT, relT }, ts)
+
+def bits (bs : List Bool) : String := String.ofList (bs.map fun b => if b then '1' else '0')
+
+def indexOfRow (keys : List String) (r : Tags) : String :=
+  let k := showVal (.dict r)
+  match keys.findIdx? (· == k) with
+  | some i => toString i
+  | none => "?"
+
+/-- `feval MODE F n REC*n RES nf (H bits)*nf nr (H HO HO bits)*nr`
+     → `ok e=<bits> s=<bits, ? where the property leaves the answer open>[ f=<row|-> a=<rows|->]` -/
+def feval (ts : List String) : String :=
+  match pReq ts with
+  | none => "bad-request"
+  | some (q, _) =>
+    let isDict := q.mode == "d"
+    let res : Resolver := if isDict then dictResolver else recsResolver q.res
+    let resRecs : List Tags := if isDict then [] else q.res
+    let fitsAt (i : Nat) : Tags → List Char → Bool := fun _ sym =>
+      match q.fitsT.find? (fun e => e.1 == sym) with
+      | some e => bitAt e.2 i
+      | none => false
+    let relAt (i : Nat) : Tags → List Char → Option (List Char) → Option (List Char) → Bool :=
+      fun _ r t f =>
+        match q.relT.find? (fun e => e.1.1 == r && e.1.2.1 == t && e.1.2.2 == f) with
+        | some e => bitAt e.2 i
+        | none => false
+    let idx := List.range q.recs.length
+    let cxs : List Ctx := (q.recs.zip idx).map fun (r, i) =>
+      { dict := r, res := res, fits := fitsAt i, rel := relAt i }
+    if cxs.any (fun cx => q.f.diverges cx) then "diverge" else
+    let e := cxs.map fun cx => q.f.evalImpl cx
+    let s := (q.recs.zip idx).map fun (r, i) =>
+      let env : SpecEnv :=
+        { deref := recsResolveRef resRecs, hops := resRecs.length + 2, fits := fitsAt i, rel := relAt i,
+          mixed := fun _ _ _ => false }
+      if q.f.noMixed env.deref r then (if q.f.evalSpec env r then '1' else '0') else '?'
+    let base := s!"ok e={bits e} s={String.ofList s}"
+    if isDict then
+      -- `Grid::filter` / `Grid::filter_all` over the rows: the namespace is the empty DEFAULT_NS
+      let flt : Tags → Bool := dictFilter (fun _ _ => false) (fun _ _ _ _ => false) q.f
+      let rows := Rows.ofList q.recs
+      let keys := q.recs.map fun r => showVal (.dict r)
+      let first := match filterFirst flt rows with
+        | some r => indexOfRow keys r
+        | none => "-"
+      let all := filterAll flt rows
+      let allS := if all.isEmpty then "-" else ",".intercalate (all.map (indexOfRow keys))
+      s!"{base} f={first} a={allS}"
+    else base
+
+def handle (ts : List String) : String :=
+  match ts with
+  | cmd :: rest => if cmd = "feval" then feval rest else "bad-request"
+  | [] => "bad-request"
 
 end Hs.Drv.C07
